@@ -261,9 +261,32 @@ def finish(ctx, rets, I, where):
             continue
         d = disp[0]
         fin_stores = [i for i in ev_index(o, lambda e: e[0] == "store" and fieldnames(e[1])[-1:] == ["finished"])]
+        # the value stored, under everything the path has established (`finished |= at_end` stores old | (RIP == end):
+        # 1 on the path where the comparison holds, the old value -- known to be false past the entry guard -- elsewhere)
+        real = []
+        fin_all = list(fin_stores)
         for i in fin_stores:
+            sv = U.strip(evs[i][2])
+            if sv[0] == "bin" and sv[1] == "BitOr":
+                # finished := finished | y: sets the flag exactly when y holds, never clears it
+                ops = [U.strip(sv[2]), U.strip(sv[3])]
+                cur = [x for x in ops if x[0] == "field" and x[2] == "finished"]
+                if len(cur) >= 1:
+                    other = ops[1] if ops[0] is cur[0] else ops[0]
+                    bo = A.bitvec(other, o.path)
+                    if bo and bo[0] in (0, 1) and all(b_ == 0 for b_ in bo[1:]):
+                        if bo[0] == 1:
+                            real.append(i)
+                        continue
+            bv = A.bitvec(evs[i][2], o.path)
+            if bv and all(b_ in (0, 1) for b_ in bv):
+                if bv[0] == 1:
+                    real.append(i)
+                continue  # stores false where finished is false already: no change
             if not (A.is_int(evs[i][2]) and evs[i][2][1] == 1):
                 bad = bad or "finished := %s" % A.show(evs[i][2])
+            real.append(i)
+        fin_stores = real
         # conditions established after dispatch
         at_end = None
         sig = None
@@ -305,7 +328,9 @@ def finish(ctx, rets, I, where):
             v = U.strip(o.value[3][0])
             okv = (A.is_int(v) and v[1] == 0 and fin_stores) or \
                   (v[0] == "bin" and v[1] == "Eq" and U.strip(v[2])[0] == "field" and U.strip(v[2])[2] == "finished"
-                   and A.is_int(v[3]) and v[3][1] == 0)
+                   and A.is_int(v[3]) and v[3][1] == 0) or \
+                  (v[0] == "bin" and v[1] == "Eq" and A.is_int(v[3]) and v[3][1] == 0 and fin_all and
+                   U.strip(v[2]) == U.strip(evs[fin_all[-1]][2]))
             if not okv:
                 bad = bad or "returns Ok(%s), expected Ok(!finished)" % A.show(v)
     if n_end == 0 or n_sig == 0:
@@ -314,6 +339,31 @@ def finish(ctx, rets, I, where):
         ck.violation("C11.finish", "api=step", bad, where=where, what="finish condition deviates")
     else:
         ck.ok("C11.finish", "api=step", n_end + n_sig)
+
+
+def monotone_or(b, val, depth=0):
+    """`finished |= x` / `finished = finished | x`: the stored value is an OR with the flag's current value, so the
+    store can set the flag but never clear it"""
+    def is_finished_place(op):
+        return op[0] in ("c", "m") and any(isinstance(e, list) and e[0] == "f" and e[2] == "finished" for e in op[1][1])
+
+    def defs(loc):
+        return [st[2] for blk in b["blocks"] for st in blk["s"] if st[0] == "a" and st[1][0] == loc and not st[1][1]]
+    if depth > 4:
+        return False
+    if val[0] == "bin" and val[1] == "BitOr":
+        for op in (val[2], val[3]):
+            if is_finished_place(op):
+                return True
+            if op[0] in ("c", "m") and not op[1][1]:
+                ds = defs(op[1][0])
+                if len(ds) == 1 and ds[0][0] == "use" and is_finished_place(ds[0][1]):
+                    return True
+        return False
+    if val[0] == "use" and val[1][0] in ("c", "m") and not val[1][1]:
+        ds = defs(val[1][0])
+        return len(ds) == 1 and monotone_or(b, ds[0], depth + 1)
+    return False
 
 
 def writers(ctx):
@@ -344,6 +394,8 @@ def writers(ctx):
                         facts.bodies[k.split("::{closure")[0]]["name"]
                     val = st[2]
                     is_true = val[0] == "use" and val[1][0] == "k" and val[1][1].get("v") == 1
+                    if not is_true:
+                        is_true = monotone_or(b, val)
                     okw = owner in allowed_fin or k in exit_hooks
                     if okw and is_true:
                         ck.ok("C11.writers", inst)
